@@ -482,6 +482,11 @@ class CallMixin:
             kdeps = keys_deps(deps)
             o = self.new_container("list", node, elem=join_all(ks).with_(deps=kdeps) if ks else Val(deps=kdeps))
             return Val(refs=[o.oid], deps=kdeps, tags=["keys"], extra=("keysof", first))
+        if ret == "values0":
+            vals = self.read_elem(first) if first.aliases() else Val(deps=first.deps)
+            vals = vals.with_(tags=vals.tags - {"label", "labels", "key"})
+            o = self.new_container("list", node, elem=vals)
+            return Val(refs=[o.oid], deps=deps, tags=["values"])
         if ret == "items0":
             ks = [self.obj(r).keys for r in first.refs if self.obj(r).keys is not None]
             kv = join_all(ks).add_deps(deps) if ks else Val(deps=deps)
